@@ -14,12 +14,20 @@ let run_outs f s subs =
   let outs = Stdlib.List.map (fun sub -> let (s', o) = Chain.add f !s sub in s := s'; outcome_string o) subs in
   (outs, !s)
 
+(* the uninterrupted run and the run up to submission i are the same for all the cases of one history: remembered
+   for the last history seen (long reorganisations cost seconds each) *)
+let memo_clean = ref None and memo_pre = ref None
+let memo r key f = match !r with
+  | Some (k, v) when k = key -> v
+  | _ -> let v = f () in r := Some (key, v); v
+
 let model input =
   let h = parse_history input in
   let (mode, i, k) = parse_x h in
   let s0 = Chain.init h.gid h.gpl in
-  let (_, clean) = run_outs h.forbidden s0 h.subs in
-  let (_, pre) = run_outs h.forbidden s0 (firstn i h.subs) in
+  let key = (h.gid, h.gpl, h.forbidden, h.subs) in
+  let clean = memo memo_clean key (fun () -> snd (run_outs h.forbidden s0 h.subs)) in
+  let pre = memo memo_pre (key, i) (fun () -> snd (run_outs h.forbidden s0 (firstn i h.subs))) in
   if mode = "ikill" then begin
     (* killed during the first start between the migrations and the genesis transaction: the store is empty;
        the restart (database.Init) inserts genesis; delivery then equals the uninterrupted run *)
